@@ -12,10 +12,10 @@
 (***************************************************************************)
 EXTENDS Integers, Sequences, FiniteSets, TLC, Json, SequencesExt
 
-CONSTANTS N, T, MaxF, Rec, OrdMode
+CONSTANTS N, Ts, MaxF, Rec, OrdMode    \* Ts: the thresholds to explore (one is picked initially)
 
-VARIABLES F, round, node, strat, msgs, hist
-vars == <<F, round, node, strat, msgs, hist>>
+VARIABLES T, F, round, node, strat, msgs, hist
+vars == <<T, F, round, node, strat, msgs, hist>>
 
 P == 0..(N-1)
 Honest == P \ F
@@ -95,7 +95,7 @@ DealPats(S) == LET H == P \ S IN
 RespPats(S) == LET H == P \ S IN
    {[d \in H |-> "app"], [d \in H |-> "none"]} \cup {[d \in H |-> IF d = x THEN "comp" ELSE "app"] : x \in H}
 RcMenu == {<<>>, <<"true">>, <<"g1">>, <<"g1", "g2">>}
-Init == /\ F = {} /\ round = "setup" /\ node = <<>> /\ msgs = <<>> /\ hist = <<>>
+Init == /\ T \in Ts /\ F = {} /\ round = "setup" /\ node = <<>> /\ msgs = <<>> /\ hist = <<>>
         /\ strat = [deal |-> <<>>, resp |-> <<>>, just |-> <<>>, sc |-> <<>>, rc |-> <<>>]
 
 Setup ==
@@ -105,7 +105,7 @@ Setup ==
        /\ strat' = [strat EXCEPT !.deal = dl]
        /\ hist' = Log([act |-> "Setup", n |-> N, t |-> T, faulty |-> SetSeq(S),
                        deal |-> [i \in DOMAIN SetSeq(S) |-> [f |-> SetSeq(S)[i], sh |-> KV(dl[SetSeq(S)[i]])]]])
-  /\ round' = "deal" /\ UNCHANGED <<node, msgs>>
+  /\ round' = "deal" /\ UNCHANGED <<T, node, msgs>>
 
 HSeq == SetSeq(Honest)
 PerNode(fn(_)) == [i \in DOMAIN HSeq |-> fn(HSeq[i])]
@@ -115,7 +115,7 @@ Deal ==
   /\ LET nd == [h \in Honest |-> AfterDeals(h)]
      IN /\ node' = nd
         /\ hist' = Log([act |-> "Deal", exp |-> PerNode(LAMBDA h : [h |-> h, resp |-> KV(RespOf(h, nd[h]))])])
-  /\ round' = "resp" /\ UNCHANGED <<F, strat, msgs>>
+  /\ round' = "resp" /\ UNCHANGED <<T, F, strat, msgs>>
 
 Resp ==
   /\ round = "resp"
@@ -138,7 +138,7 @@ Resp ==
           /\ msgs' = [h \in Honest |-> r[h].just]
           /\ hist' = Log([act |-> "Resp", fresp |-> [i \in DOMAIN SetSeq(F) |-> [f |-> SetSeq(F)[i], rs |-> KV(rp[SetSeq(F)[i]])]],
                           exp |-> PerNode(LAMBDA h : [h |-> h, just |-> SetSeq(r[h].just)])])
-  /\ round' = "just" /\ UNCHANGED <<F>>
+  /\ round' = "just" /\ UNCHANGED <<T, F>>
 
 Just ==
   /\ round = "just"
@@ -156,7 +156,7 @@ Just ==
              /\ hist' = Log([act |-> "Just", fjust |-> [i \in DOMAIN SetSeq(F) |-> [f |-> SetSeq(F)[i], k |-> jp[SetSeq(F)[i]]]],
                              exp |-> PerNode(LAMBDA h : [h |-> h, qual |-> SetSeq(QUAL(nd[h])),
                                                          dealerCertified |-> DealerCertified(nd[h])])])
-  /\ round' = "sc" /\ UNCHANGED <<F, msgs>>
+  /\ round' = "sc" /\ UNCHANGED <<T, F, msgs>>
 
 SecretCommits ==
   /\ round = "sc"
@@ -188,7 +188,7 @@ SecretCommits ==
              /\ hist' = Log([act |-> "SecretCommits", fsc |-> [i \in DOMAIN SetSeq(F) |-> [f |-> SetSeq(F)[i], k |-> sp[SetSeq(F)[i]]]],
                              exp |-> PerNode(LAMBDA h : [h |-> h, sent |-> r[h].sent, cc |-> SetSeq(r[h].cc),
                                                          rc |-> KV(r2[h].rc)])])
-  /\ round' = "rc" /\ UNCHANGED <<F>>
+  /\ round' = "rc" /\ UNCHANGED <<T, F>>
 
 \* ---- classes of runs in which the code, as written, departs from the requirement layer.  Each class is a
 \* root cause visible in dkg.go / vss.go; the replayer reproduces each on the real code (notes/dkg.md).
@@ -232,7 +232,7 @@ Reconstruct ==
                                                                         /\ ~(strat.deal[f][h] = "B" /\ strat.just[f] = "valid")}),
                                       honest |-> HSeq, allHonest |-> F = {},
                                       cls |-> Classes(nd, [strat EXCEPT !.rc = rp])]])
-  /\ round' = "done" /\ UNCHANGED <<F, msgs>>
+  /\ round' = "done" /\ UNCHANGED <<T, F, msgs>>
 
 Next == Setup \/ Deal \/ Resp \/ Just \/ SecretCommits \/ Reconstruct
 Spec == Init /\ [][Next]_vars
@@ -246,7 +246,9 @@ MustOut == {f \in F : \E h \in Honest : strat.deal[f][h] # "G" /\ ~(strat.deal[f
 UnjustifiedDealerOut == Done => \A a \in Fin : MustOut \cap node[a].out.qual = {}
 HonestDealerStays == Done => \A a \in Fin : Honest \subseteq node[a].out.qual
 AllHonestAllFinish == (Done /\ F = {}) => \A h \in P : node[h].out.k = "res"
-ReqAll == Agreement /\ SharesOnPoly /\ UnjustifiedDealerOut /\ HonestDealerStays /\ AllHonestAllFinish
+\* at least t dealers are honest and an honest dealer is never disqualified, so the key is always certified
+AlwaysCertified == Done => \A h \in Honest : ~(node[h].out.k = "err" /\ node[h].out.e = "notcertified")
+ReqAll == Agreement /\ SharesOnPoly /\ UnjustifiedDealerOut /\ HonestDealerStays /\ AllHonestAllFinish /\ AlwaysCertified
 
 ReqExceptLeads == ReqAll \/ (Done /\ Classes(node, strat) # <<>>)
 
